@@ -104,10 +104,18 @@ theorem guarded_sites_present :
     visitWrapperMarksFailed = true := by
   decide +kernel
 
-/-- the model's `set_error_state` mirrors the source: Method Status, System State, (safe state), listeners -/
+/-- What the model's `set_error_state` needs from the source, and no more: its calls that may raise (private helpers
+    inlined) BEGIN with a tag update — a fault there (`HF.first`) finds the state flags untouched — and END with the
+    notification of the listeners — a fault there (`HF.last`) finds every state change done; in between exactly one
+    more tag update and the safe state, in any order.  Neither the relative order of the two tag updates nor the
+    position of the assignment to `_last_error` (not a call; see `errorRecordedFirst`) is pinned: no theorem
+    depends on them. -/
 theorem set_error_state_shape :
-    setErrorCalls = ["self._system_tags[].set_value", "self._system_tags[].set_value",
-                     "self._apply_safe_state", "self._emitter.emit_on_method_error"] := by
+    setErrorCalls.head? = some "self._system_tags[].set_value" ∧
+    setErrorCalls.getLast? = some "self._emitter.emit_on_method_error" ∧
+    setErrorCalls.length = 4 ∧
+    setErrorCalls.count "self._system_tags[].set_value" = 2 ∧
+    setErrorCalls.count "self._apply_safe_state" = 1 := by
   decide +kernel
 
 /-! ## 2. the tick shell over the regenerated phase table -/
